@@ -353,6 +353,8 @@ pub struct WireReq {
     pub raw_session_id: Option<String>,
     /// (key id, nonce hex) as found in the cup2key query parameter, if any (last occurrence).
     pub cup2key: Option<String>,
+    /// Wall clock (ns) of the world at the moment the request was handed to the transport.
+    pub sent_wall: i128,
 }
 impl WireReq {
     pub fn header(&self, name: &str) -> Option<&str> {
@@ -1127,6 +1129,7 @@ pub fn parse_wire(w: &mut Inner, req: hyper::Request<hyper::Body>) -> WireReq {
         raw_request_id,
         raw_session_id,
         cup2key,
+        sent_wall: w.clock.wall,
     }
 }
 
